@@ -8,7 +8,7 @@ EXPLANATION = ('C05: total intensity over one full period equals the input power
                'amplitude/OPD/wavelength/focal length/input pixel scale and the output pixel scale tied to them so that 1/alpha = N exactly; '
                'roots of unity are atoms constrained by linear theorems (subgroup/coset sums vanish) and z3 decides the Parseval identity.')
 BOUNDS = {
-    'quick': 'periods N_r, N_c in 1..5 independently; pupil <= min(3, N) per axis, whole or as two equal-shape segments; oversample in {1,2,3} dividing N; nested windows for pupils <= 2x2; normalize_power on <= 3x3',
+    'quick': 'periods N_r, N_c in 1..5 independently; pupil <= min(3, N) per axis, whole or as two equal-shape segments; oversample in {1,2,3} dividing N; nested windows for pupils <= 2x2; three tilted segments with bridging 2x2 windows on a 2x8 period (4 storage orders, sampled points); normalize_power on <= 3x3, two targets in a row',
     'thorough': 'periods up to 8 per axis; pupil <= min(4, N); all nested centred windows',
 }
 ASSUMPTIONS = ['1/alpha is an integer N >= pupil size on each axis (the property\'s commensurate regime); sum |a|^2 > 0 for normalize_power',
